@@ -445,6 +445,9 @@ func (n *Nodis) Rename(key, dstKey string) error {
 		if !meta.isOk() {
 			return errors.New("key not exists")
 		}
+		if key == dstKey {
+			return nil
+		}
 		dstMeta := tx.writeKey(dstKey, nil)
 		tx.delKey(key)
 		if !dstMeta.isOk() {
